@@ -219,7 +219,17 @@ _reg(NAMEFILL, "fake_root_get_name", "ctpg::detail::fake_root::get_name", "##")
 _reg(NAMEFILL, "make_symbol_term", "ctpg::parser::make_symbol", "term: index of its id in term_ids", ptypes={"0": "term"})
 _reg(NAMEFILL, "make_symbol_nterm", "ctpg::parser::make_symbol", "nterm: index of its name in nterm_names", ptypes={"0": "nterm"})
 
+# ---------------------------------------------------------------- the convenience overloads of parse / context_parse
+OVL = []
+_reg(OVL, "parse_1", "ctpg::parser::parse", "parse(buffer) = parse(buffer, no_stream)", nparams=1)
+_reg(OVL, "parse_2", "ctpg::parser::parse", "parse(buffer, stream) = parse(parse_options{}, buffer, stream)", nparams=2)
+_reg(OVL, "parse_3", "ctpg::parser::parse", "parse(options, buffer, stream) = context_parse(no_type{}, options, buffer, stream)", nparams=3)
+_reg(OVL, "context_parse_2", "ctpg::parser::context_parse", "context_parse(ctx, buffer) = context_parse(forward(ctx), buffer, no_stream)", nparams=2)
+_reg(OVL, "context_parse_3", "ctpg::parser::context_parse", "context_parse(ctx, buffer, stream) = context_parse(forward(ctx), "
+     "parse_options{}, buffer, stream)", nparams=3)
+
 GROUPS = {
+    "OVL": OVL,
     "NAMEFILL": NAMEFILL,
     "GAPI2": GAPI2,
     "CVEC2": CVEC2, "BUFIT": BUFIT, "TVAL": TVAL, "UTIL": UTIL, "GAPI": GAPI,
